@@ -152,6 +152,10 @@ const WORKLOADS: &[(&str, &str, &str)] = &[
     ("nested-lists-1", SCHEMA_T, "{ m n { x } }"),
     ("nested-lists-2", SCHEMA_T, "{ p { y } q }"),
     ("alias-merge", SCHEMA_T, "{ t { x } t { y } t2: t { x } t2: t { e ...F } i2: i i2: i } fragment F on T { t { x } x2: x }"),
+    // the same composite key from a direct field, an inline fragment and named fragments, each
+    // occurrence with a sub-field the others lack, in every order of arrival
+    ("merge-across-fragments", SCHEMA_T, "{ t { x } ...F ... { t { e } } ...G } fragment F on Query { t { y } } fragment G on Query { t { t { x } } tn { x } }"),
+    ("merge-fragment-first", SCHEMA_T, "{ ...F t { x } tn { e } ...G } fragment F on Query { t { y } tn { y } } fragment G on Query { tn { x } }"),
     ("mutation", SCHEMA_T, "mutation { set(v: 1) { x e } bump }"),
     ("interface-typename", SCHEMA_ABS, "{ node { __typename id ... on A { a } ... on B { b } } }"),
     (
